@@ -168,7 +168,7 @@ def stepOp (maxCache : Nat) (a : Acc) (j : Json) : Except String Acc := do
     let why := if !ok && a.why.isEmpty then
         (if !unch then s!"target/spec/scope changed at op {a.nOps}"
          else if !specUnch then s!"an object of the spec's object graph (or a mapping handed to it) changed by being evaluated (op {a.nOps})"
-         else if !scopeUnch then s!"the caller's scope mapping changed (op {a.nOps})"
+         else if !scopeUnch then s!"the caller's scope mapping / path list changed (op {a.nOps})"
          else if !varsOk then s!"the reads of a spec holding Vars(...) differ from those of a fresh variable holder (op {a.nOps})"
          else if !lkOk then s!"a handler differs from the uncached lookup under the registrations in force (op {a.nOps})"
          else if !freshReg then s!"outcome differs from the same call in a freshly built registry with the same registrations (op {a.nOps})"
